@@ -279,7 +279,8 @@ def subterms(t, _seen=None):
         if id(x) in _seen:
             continue
         _seen.add(id(x))
-        yield x
+        if x and isinstance(x[0], str):
+            yield x
         for c in x:
             if isinstance(c, tuple):
                 stack.append(c)
